@@ -175,6 +175,7 @@ class StateVectorExecutor(TraceExecutor):
         self.nv_semantics = False  # informational
         self.before_remove_hook: Optional[Callable[[int], None]] = None
         self.before_measure_hook: Optional[Callable[[int], None]] = None
+        self.crot_controls: List[Any] = []  # (control, target) virtual ids of every executed controlled rotation
 
     def _reserve_physical_qubit(self, physical_address):
         if physical_address not in self.sv.labels:
@@ -207,6 +208,7 @@ class StateVectorExecutor(TraceExecutor):
         p1 = self._get_position(subroutine_id=subroutine_id, address=address1)
         p2 = self._get_position(subroutine_id=subroutine_id, address=address2)
         self.events.append((instr.mnemonic, address1, address2, instr.angle_num.value, instr.angle_denom.value))
+        self.crot_controls.append((address1, address2))
         self.sv.apply(qm.crot(instr.mnemonic[-1], qm.angle(instr.angle_num.value, instr.angle_denom.value)), [p1, p2])
 
     def _do_two_qubit_instr(self, instr, subroutine_id, address1, address2):
